@@ -45,6 +45,7 @@ E_Mismatch == 10002
 E_VariableNotFound == 10003
 E_FoldNonArray == 10005
 E_UserError == 10006
+E_InvalidErrorObject == 10008
 E_Lambda == 10007
 E_NotInitAfterNew == 10009
 E_LengthOfNonArray == 10010
@@ -409,9 +410,18 @@ PlainLens(lens) == \A i \in 1..Len(lens) : lens[i].lk \in {"field", "idx"}
 
 \* apply_lambda_with_tetraplets on a scalar
 ApplyLens(ctx, val, lens) ==
-    IF Len(lens) = 1 /\ lens[1].lk = "len" THEN
+    IF val.cn THEN
+        \* a canon stream (jvaluable/canon_stream.rs, select_by_path_from_stream): the first accessor picks the element, the
+        \* rest navigates inside it; the result keeps the element's own tetraplet (no lens suffix) and provenance
+        (IF lens[1].lk # "idx" \/ ~PlainLens(lens) THEN RErr(-2)
+         ELSE IF lens[1].ix >= Len(val.elems) THEN RErr(E_Lambda)
+         ELSE LET el == val.elems[lens[1].ix + 1]
+                  nv == Nav(el.v, SubSeq(lens, 2, Len(lens))) IN
+              IF nv.ok THEN [r |-> "ok", code |-> 0, val |-> [Val(nv.v, el.tp) EXCEPT !.prov = el.prov]]
+              ELSE RErr(E_Lambda))
+    ELSE IF Len(lens) = 1 /\ lens[1].lk = "len" THEN
         (IF IsArr(val.v) THEN [r |-> "ok", code |-> 0,
-                               val |-> Val(Num(Len(val.v.q)), [p |-> "", s |-> "", f |-> "", lens |-> ".length"])]
+                               val |-> [Val(Num(Len(val.v.q)), [p |-> "", s |-> "", f |-> "", lens |-> ".length"]) EXCEPT !.prov = val.prov]]
          ELSE RErr(E_LengthOfNonArray))
     ELSE IF ~PlainLens(lens) THEN RErr(-2)     \* by-scalar accessors: not in stage 1
     ELSE LET nv == Nav(val.v, lens) IN
@@ -423,18 +433,28 @@ Resolve(ctx, o) ==
       [] o.o = "peer"  -> Const(ctx, Str(o.n))
       [] o.o = "init"  -> Const(ctx, Str(ctx.init))
       [] o.o = "empty" -> Const(ctx, Arr(<<>>))
+      \* run parameters of the harness (net.rs): timestamp 1 700 000 000, ttl 5000
+      [] o.o = "ts"    -> Const(ctx, Num(1700000000))
+      [] o.o = "ttl"   -> Const(ctx, Num(5000))
       [] o.o = "var"   ->
             LET g == GetValue(ctx, o.n) IN
             IF g.r # "ok" THEN g
             ELSE IF Len(o.lens) = 0 THEN g
             ELSE ApplyLens(ctx, g.val, o.lens)
+      \* %last_error% / :error: (resolvable_impl.rs resolve_errors): the lens is applied to the error object, the
+      \* tetraplet is the one recorded with the error (none: the literal tetraplet) and gets no lens suffix.
+      \* Only `.$.error_code` is modelled.
+      [] o.o = "lasterr" -> [r |-> "ok", code |-> 0, val |-> Val(ctx.le.codev, ctx.le.tp)]
+      [] o.o = "err"     -> [r |-> "ok", code |-> 0, val |-> Val(ctx.er.codev, ctx.er.tp)]
       [] OTHER -> RErr(-2)
 
 Sigil(n) == SubSeq(n, 1, 1)
 Supported(o) ==
-    \/ o.o \in {"lit", "peer", "init", "empty"}
+    \/ o.o \in {"lit", "peer", "init", "empty", "ts", "ttl"}
     \/ (o.o = "var" /\ Sigil(o.n) \notin {"#", "$", "%"} /\ \A i \in 1..Len(o.lens) : o.lens[i].lk \in {"field", "idx", "len"})
-    \/ (o.o = "var" /\ Sigil(o.n) = "#" /\ SubSeq(o.n, 1, 2) # "#%" /\ Len(o.lens) = 0)
+    \/ (o.o = "var" /\ Sigil(o.n) = "#" /\ SubSeq(o.n, 1, 2) # "#%"
+            /\ (Len(o.lens) = 0 \/ (o.lens[1].lk = "idx" /\ \A i \in 1..Len(o.lens) : o.lens[i].lk \in {"field", "idx"})))
+    \/ (o.o \in {"lasterr", "err"} /\ Len(o.lens) = 1 /\ o.lens[1].lk = "field" /\ o.lens[1].name = "error_code")
 
 \* resolve a sequence of operands left to right; first non-ok decides
 RECURSIVE ResolveAll(_, _, _, _)
@@ -451,11 +471,23 @@ InitCtx(me, init, pt, ct, lcid, results) ==
       out |-> <<>>, sc |-> <<>>, depth |-> 0, allowed |-> {0}, it |-> <<>>,
       ok |-> TRUE, nx |-> {}, rq |-> <<>>, lcid |-> lcid, res |-> results,
       sm |-> <<>>, lex |-> {}, n2p |-> <<>>, n2c |-> <<>>, ff |-> <<>>, fid |-> 0,
-      err |-> NoErr, unsup |-> FALSE, kf1 |-> FALSE ]
+      err |-> NoErr, unsup |-> FALSE, kf1 |-> FALSE,
+      \* %last_error% and :error: descriptors: error code (as a value), tetraplet, "can be set" flag
+      le |-> [codev |-> Num(0), tp |-> [p |-> init, s |-> "", f |-> "", lens |-> ""], set |-> TRUE],
+      er |-> [codev |-> Num(0), tp |-> [p |-> init, s |-> "", f |-> "", lens |-> ""], set |-> TRUE, orig |-> NoErr] ]
 
 Push(ctx, st) == [ctx EXCEPT !.out = Append(@, st)]
 Incomplete(ctx) == [ctx EXCEPT !.ok = FALSE]
-Raise(ctx, e) == [ctx EXCEPT !.err = e]
+\* ExecutionCtx::set_errors, called by every instruction an error passes through on its way up: the first call after the
+\* descriptors were (re)armed records the error, the later ones change nothing, so it is applied where the error is
+\* raised (and harmlessly again where it is re-raised).  Match / mismatch failures do not touch %last_error%.
+LitTp(ctx) == [p |-> ctx.init, s |-> "", f |-> "", lens |-> ""]
+SetErrors(ctx, e, tp) ==
+    IF e.cls # "catch" THEN ctx
+    ELSE [ctx EXCEPT !.le = IF @.set /\ e.code \notin {E_Match, E_Mismatch} THEN [codev |-> Num(e.code), tp |-> tp, set |-> FALSE] ELSE @,
+                     !.er = IF @.set THEN [codev |-> Num(e.code), tp |-> tp, set |-> FALSE, orig |-> NoErr] ELSE [@ EXCEPT !.set = FALSE]]
+RaiseT(ctx, e, tp) == SetErrors([ctx EXCEPT !.err = e], e, tp)
+Raise(ctx, e) == RaiseT(ctx, e, LitTp(ctx))
 
 ResultFor(ctx, id) == {r \in ctx.res : r.id = id}
 
@@ -481,11 +513,10 @@ ParamsMatch(st, p, s, f, args) == st.p = p /\ st.s = s /\ st.f = f /\ st.lens = 
 \* update_state_with_service_result
 ApplyServiceResult(ctx, r, out, p, s, f, args) ==
     IF r.rc # 0 THEN
-        Raise(Push(ctx, FailedState(FailedValue(r.rc, r.body), p, s, f, args)), Catch(E_LocalService))
+        RaiseT(Push(ctx, FailedState(FailedValue(r.rc, r.body), p, s, f, args)), Catch(E_LocalService), [p |-> p, s |-> s, f |-> f, lens |-> ""])
     ELSE IF r.v.t = "raw" THEN
-        \* try_to_service_result: a body that is not JSON; the stored message embeds the serde error text,
-        \* which the model does not reproduce: content left opaque
-        Raise(Push(ctx, FailedState(Unknown, p, s, f, args)), Catch(E_LocalService))
+        \* try_to_service_result: a body that is not JSON
+        RaiseT(Push(ctx, FailedState(UndecodableValue(r.body), p, s, f, args)), Catch(E_LocalService), [p |-> p, s |-> s, f |-> f, lens |-> ""])
     ELSE IF out = "" THEN Push(ctx, UnusedState(r.v))
     ELSE IF Sigil(out) = "$" THEN
         LET c2 == AddStreamValue(ctx, out, ValAt(r.v, [p |-> p, s |-> s, f |-> f, lens |-> ""], Len(ctx.out), "sr"), [k |-> "new", i |-> 0]) IN
@@ -523,7 +554,8 @@ ExecCall(i, ctx0) ==
         \* and the next instruction will meet it (known finding "args-failed-after-sent", C04); kf1 records
         \* that the next state of either trace is a call state at this moment
         LET pn == NextState(ctx0.pt, ctx0.ps)  cn == NextState(ctx0.ct, ctx0.cs) IN
-        Raise([ctx0 EXCEPT !.kf1 = @ \/ (pn.has /\ IsCallState(pn.st)) \/ (cn.has /\ IsCallState(cn.st))], ErrOf(ar.code))
+        RaiseT([ctx0 EXCEPT !.kf1 = @ \/ (pn.has /\ IsCallState(pn.st)) \/ (cn.has /\ IsCallState(cn.st))], ErrOf(ar.code),
+               [p |-> p, s |-> s, f |-> f, lens |-> ""])
     ELSE
     LET argsKnown == ar.r = "ok"
         args == IF argsKnown THEN Vals(ar.vals) ELSE <<>>
@@ -551,7 +583,7 @@ ExecCall(i, ctx0) ==
     CASE st.k = "failed" ->
             IF ~argsKnown THEN Raise(ctx, Uncatch(-1))     \* argument_hash.unwrap() on None: panic (C01)
             ELSE IF ~ParamsMatch(st, p, s, f, args) THEN Raise(ctx, Uncatch(U_ParamsMismatch))
-            ELSE Raise(Incomplete(Push(ctx, st)), Catch(E_LocalService))
+            ELSE RaiseT(Incomplete(Push(ctx, st)), Catch(E_LocalService), [p |-> p, s |-> s, f |-> f, lens |-> ""])
       [] st.k = "sent" /\ st.by = ctx.me /\ st.id >= 0 ->
             LET rs == ResultFor(ctx, st.id) IN
             IF rs = {} THEN Incomplete(Push(ctx, st))
@@ -619,9 +651,29 @@ ExecSeq(i, ctx) ==
     LET c1 == Exec(i.l, [ctx EXCEPT !.ok = TRUE]) IN
     IF Failed(c1) \/ ~c1.ok THEN c1 ELSE Exec(i.r, c1)
 
+\* fail.rs.  With literals: %last_error% becomes the literal error object unconditionally, then UserError bubbles.
+\* (fail %last_error%): the last error must be a real error object (code # 0), it stays the last error, UserError bubbles.
+\* (fail :error:): likewise for :error:, which also becomes the last error; the error that bubbles is the one the
+\* enclosing xor caught (if :error: still is that one), else UserError; :error: is frozen.
+ExecFail(i, ctx) ==
+    IF i.a.o = "lit" THEN
+        Raise(Incomplete([ctx EXCEPT !.le = [codev |-> i.a.v, tp |-> LitTp(ctx), set |-> FALSE]]), Catch(E_UserError))
+    ELSE IF i.a.o = "lasterr" THEN
+        (IF ctx.le.codev = Num(0) THEN Raise(ctx, Catch(E_InvalidErrorObject))
+         ELSE Raise(Incomplete([ctx EXCEPT !.le.set = FALSE]), Catch(E_UserError)))
+    ELSE
+        (IF ctx.er.codev = Num(0) THEN Raise(ctx, Catch(E_InvalidErrorObject))
+         ELSE LET c1 == Incomplete([ctx EXCEPT !.le = [codev |-> ctx.er.codev, tp |-> ctx.er.tp, set |-> FALSE], !.er.set = FALSE]) IN
+              [c1 EXCEPT !.err = IF ctx.er.orig.cls = "catch" THEN ctx.er.orig ELSE Catch(E_UserError)])
+
+\* xor.rs: catching re-arms both descriptors; after the right branch :error: is cleared if it may be set, and is
+\* re-armed if the right branch did not fail
 ExecXor(i, ctx) ==
     LET c1 == Exec(i.l, [ctx EXCEPT !.ok = TRUE]) IN
-    IF c1.err.cls = "catch" THEN Exec(i.r, [c1 EXCEPT !.ok = TRUE, !.err = NoErr])
+    IF c1.err.cls = "catch" THEN
+        LET r == Exec(i.r, [c1 EXCEPT !.ok = TRUE, !.err = NoErr, !.le.set = TRUE, !.er.set = TRUE, !.er.orig = c1.err])
+            r2 == IF r.er.set THEN [r EXCEPT !.er = [codev |-> Num(0), tp |-> LitTp(r), set |-> TRUE, orig |-> NoErr]] ELSE r
+        IN IF ~Failed(r2) THEN [r2 EXCEPT !.er.set = TRUE] ELSE r2
     ELSE c1
 
 ExecPar(i, ctx) ==
@@ -646,7 +698,8 @@ ExecPar(i, ctx) ==
         rok == r1.ok
         done == ParRightCompleted(r1, lc.fsm)
         fin == [done EXCEPT !.ok = lok \/ rok]
-    IN IF lfailed /\ rfailed THEN Raise(fin, rerr) ELSE fin
+    \* prepare_par_result: a par with a side that did not fail re-arms %last_error%
+    IN IF lfailed /\ rfailed THEN Raise(fin, rerr) ELSE [fin EXCEPT !.le.set = TRUE]
 
 ExecMatch(i, ctx, wantEqual) ==
     LET a == Resolve(ctx, i.a)  b == Resolve(ctx, i.b) IN
@@ -664,6 +717,19 @@ ExecAp(i, ctx) ==
     ELSE
     \* the value takes the position of the Ap state about to be written
     LET val == [a.val EXCEPT !.pos = Len(ctx.out)]
+        m == TryMergeNextStateAsAp(ctx) IN
+    IF ~m.ok THEN Raise(m.ctx, Uncatch(U_Trace))
+    ELSE LET c2 == AddStreamValue(m.ctx, i.dst, val, m.gen) IN
+         IF Failed(c2) THEN c2 ELSE Push(c2, ApState)
+
+\* ap into a stream map (instructions/ap_map.rs): the value is resolved first (issue 216), then the Ap state is merged,
+\* then the key; the map holds {key, value} objects in an ordinary stream of its own namespace
+ExecApMap(i, ctx) ==
+    LET a == Resolve(ctx, i.src) IN
+    IF a.r = "join" THEN Incomplete(ctx)
+    ELSE IF a.r = "err" THEN Raise(ctx, ErrOf(a.code))
+    ELSE
+    LET val == [a.val EXCEPT !.pos = Len(ctx.out), !.v = Obj(<<KV("key", i.key.v), KV("value", a.val.v)>>)]
         m == TryMergeNextStateAsAp(ctx) IN
     IF ~m.ok THEN Raise(m.ctx, Uncatch(U_Trace))
     ELSE LET c2 == AddStreamValue(m.ctx, i.dst, val, m.gen) IN
@@ -897,9 +963,10 @@ SupportedInstr(i) ==
                           /\ (i.out = "" \/ Sigil(i.out) \notin {"%", "#"})
       [] i.op \in {"seq", "par", "xor", "null", "never", "next"} -> TRUE
       [] i.op = "new" -> Sigil(i.n) \notin {"%", "#"}
-      [] i.op = "fail" -> i.a.o = "lit"
+      [] i.op = "fail" -> i.a.o = "lit" \/ (i.a.o \in {"lasterr", "err"} /\ Len(i.a.lens) = 0)
       [] i.op \in {"match", "mismatch"} -> Supported(i.a) /\ Supported(i.b)
       [] i.op = "ap" -> Supported(i.src) /\ Sigil(i.dst) \notin {"%", "#"}
+      [] i.op = "apmap" -> Supported(i.src) /\ Sigil(i.dst) = "%" /\ i.key.o = "lit" /\ i.key.v.t \in {"s", "n"}
       [] i.op = "fold" -> i.it.o = "var" /\ (Supported(i.it) \/ (Sigil(i.it.n) = "$" /\ Len(i.it.lens) = 0))
       [] i.op = "canon" -> Supported(i.peer) /\ Sigil(i.s) = "$" /\ SubSeq(i.c, 1, 2) = "#$"
       [] OTHER -> FALSE
@@ -914,10 +981,12 @@ Exec(i, ctx) ==
       [] i.op = "xor"      -> ExecXor(i, ctx)
       [] i.op = "null"     -> ctx
       [] i.op = "never"    -> Incomplete(ctx)
-      [] i.op = "fail"     -> Raise(Incomplete(ctx), Catch(E_UserError))
+      \* fail.rs fail_with_literals: %last_error% becomes the literal error object unconditionally, then UserError bubbles
+      [] i.op = "fail"     -> ExecFail(i, ctx)
       [] i.op = "match"    -> ExecMatch(i, ctx, TRUE)
       [] i.op = "mismatch" -> ExecMatch(i, ctx, FALSE)
       [] i.op = "ap"       -> ExecAp(i, ctx)
+      [] i.op = "apmap"    -> ExecApMap(i, ctx)
       [] i.op = "new"      -> ExecNew(i, ctx)
       [] i.op = "fold"     -> ExecFold(i, ctx)
       [] i.op = "next"     -> ExecNext(i, ctx)
